@@ -143,7 +143,10 @@ def gen(seed, index, tier):
             ops.append(mutation())
         else:
             ops.append({"op": "advance", "dt": _deltas(rng, L)})
-    return {"spec": spec, "ops": ops, "L": L,
+    # the cache file's name and the ignore pattern are options too
+    cachefile = rng.choice([None, None, None, ".dircache", "cache.db"])
+    ignorepatt = rng.choice([None, None, None, "~$|\\.abstract$"])
+    return {"spec": spec, "ops": ops, "L": L, "cachefile": cachefile, "ignorepatt": ignorepatt,
             "handlers": rng.choice(["default", "default", "plaindir"]),
             "servertype": rng.choice(["ThreadingTCPServer", "ForkingTCPServer"]),
             "sched_seed": rng.randrange(1 << 30)}
@@ -189,7 +192,7 @@ def _apply(op, root, now):
             p = os.path.join(d, ".names")
             data = ("Path=./%s\nName=Named %d\nNumb=%d\n" % (op["name"], op["v"], op["v"] % 7)).encode()
         elif kind == "cap":
-            if not os.path.isdir(os.path.join(d, ".cap")):
+            if not os.path.isdir(os.path.join(d, ".cap")) and not op["remove"]:
                 os.makedirs(os.path.join(d, ".cap"))
                 simfs.real_utime(d, (now, now))
             p = os.path.join(d, ".cap", op["name"])
@@ -211,9 +214,10 @@ def _apply(op, root, now):
     raise ValueError(k)
 
 
-def _snapshot(root, dst):
+def _snapshot(root, dst, cachefile=CACHEFILE):
     shutil.copytree(root, dst, symlinks=True, copy_function=shutil.copy2,
-                    ignore=lambda d, names: [n for n in names if n.startswith(".cache.pygopherd")])
+                    ignore=lambda d, names: [n for n in names if n.startswith(".cache.pygopherd")
+                                             or n == cachefile or n.startswith(cachefile + ".")])
 
 
 def execute(sc, tape=None):
@@ -221,6 +225,12 @@ def execute(sc, tape=None):
     L = sc["L"]
     conf = {("handlers.dir.DirHandler", "cachetime"): str(L)}
     refconf = {("handlers.dir.DirHandler", "cachetime"): "0"}
+    cachefile = sc.get("cachefile") or CACHEFILE
+    for cf in (conf, refconf):
+        if sc.get("cachefile"):
+            cf[("handlers.dir.DirHandler", "cachefile")] = sc["cachefile"]
+        if sc.get("ignorepatt"):
+            cf[("handlers.dir.DirHandler", "ignorepatt")] = sc["ignorepatt"]
     with harness.Scratch("c10") as base:
         root = os.path.join(base, "root")
         world.build(root, sc["spec"])
@@ -228,7 +238,7 @@ def execute(sc, tape=None):
 
         def snap(t):
             p = os.path.join(base, "state%04d" % len(states))
-            _snapshot(root, p)
+            _snapshot(root, p, cachefile)
             states.append((t, p))
 
         tp = Tape(sc["sched_seed"], replay=tape)
@@ -238,7 +248,7 @@ def execute(sc, tape=None):
         counters = {}
         abstract = []
         with run:
-            run.fs.watch_open = CACHEFILE
+            run.fs.watch_open = cachefile
             snap(run.sim.now)
             for op in sc["ops"]:
                 k = op["op"]
@@ -296,7 +306,7 @@ def execute(sc, tape=None):
             """state k's tree with directory d's own .abstract taken from state j"""
             hp = os.path.join(base, "hybrid")
             shutil.rmtree(hp, ignore_errors=True)
-            _snapshot(states[k][1], hp)
+            _snapshot(states[k][1], hp, cachefile)
             dst = os.path.join(hp, d, ".abstract")
             src = os.path.join(states[j][1], d, ".abstract")
             if os.path.exists(dst):
